@@ -115,16 +115,19 @@ def check_keys(inv, data):
 def mon_runtime(st, ctx, goodwe, want=('C15', 'C14')):
     """C15: keys == sensors() ids, success no later than the second call; C14: no decode reads past the fetched window"""
     KNOWN = {'apparent_power2', 'apparent_power3'}
-    for tag, serial, rated, sub, bm in et_configs(ctx.rng, ctx.deep):
+    # every configuration twice for C15: sensors() asked only after each poll / also before the first poll and between the polls (an application
+    # that creates its entities from sensors() right after read_device_info())
+    for (tag, serial, rated, sub, bm), listed in [(c, l) for c in et_configs(ctx.rng, ctx.deep) for l in ((False, True) if 'C15' in want else (False,))]:
         inv, sim = make_et(goodwe, serial, rated, sub, bm, seed=ctx.rng.randrange(1 << 30))
         sr = ShortReads(goodwe)
         inv._map_response = sr.map_response
-        cfg = dict(family='ET', model=tag, serial=serial, rated_power=rated, refused=list(sub), battery_mode=bm)
+        cfg = dict(family='ET', model=tag, serial=serial, rated_power=rated, refused=list(sub), battery_mode=bm, sensors_listed_before_each_poll=listed)
         try:
             run(inv.read_device_info())
             outcomes = []
             for call in range(3):
                 if call == 2 and bm == 0: sim.set(35184, 3)        # the battery appears between the calls
+                if listed: inv.sensors()
                 try:
                     data = run(inv.read_runtime_data())
                     ok, missing, extra = check_keys(inv, data)
@@ -143,7 +146,7 @@ def mon_runtime(st, ctx, goodwe, want=('C15', 'C14')):
                     key = 'mppt-window' if sid in KNOWN and first == 35301 else 'short-read'
                     st.violation(key, f'ET {tag} rated {rated} refusing {list(sub)}: sensor {sid} decoded past the end of the answer to READ {count} registers from {first}',
                                  dict(config=cfg, sensor=sid, first=first, count=count))
-            st.case(('ET', serial, rated, sub, bm), sample=dict(config=cfg, outcomes=outcomes) if len(st.samples) < 3 else None)
+            st.case(('ET', serial, rated, sub, bm, listed), sample=dict(config=cfg, outcomes=outcomes) if len(st.samples) < 3 else None)
         finally:
             sr.restore()
     # a request lost in the middle of a call (the call fails with RequestFailedException, which the property allows); the calls
@@ -187,6 +190,7 @@ def mon_runtime(st, ctx, goodwe, want=('C15', 'C14')):
                 run(inv.read_device_info())
                 outcomes = []
                 for call in range(3):
+                    inv.sensors()
                     try:
                         data = run(inv.read_runtime_data())
                         ok, missing, extra = check_keys(inv, data)
@@ -275,7 +279,8 @@ def _compare_single(st, inv, data, cfg, only_prefix=None):
 
 
 # ------------------------------------------------------------------------------------------------ C17
-def setting_values(s, rng, deep):
+def setting_values(s, rng, deep, search=False):
+    """values written to a setting; deep: the thorough tier (exhaustive for Decimal); search: the search after a broken proof in a quick run (medium)"""
     c = type(s).__name__
     if c == 'Integer': return [0, 1, 100, 255, 256, 32767, 32768, 65534] + [rng.randrange(65535) for _ in range(4 if not deep else 40)]
     if c == 'IntegerS': return [-32768, -1, 0, 1, 32767] + [rng.randrange(-32768, 32768) for _ in range(4)]
@@ -284,9 +289,12 @@ def setting_values(s, rng, deep):
     if c in ('Voltage', 'Current'): return [k / 10 for k in ([0, 1, 57, 1234, 5000, 65534] + [rng.randrange(65535) for _ in range(6 if not deep else 200)])]
     if c == 'CurrentS': return [k / 10 for k in [-32768, -57, -1, 0, 1, 57, 32767]]
     if c == 'Decimal':
-        ks = list(range(-32768, 32768, 1 if deep else 257)) + [57, 29, -29, 56, 58, 100, -100]
+        ks = list(range(-32768, 32768, (1 if not search else 41) if deep else 257)) + [57, 29, -29, 56, 58, 100, -100]
         return [k / s.scale for k in ks]
     return []
+
+
+BOUNDARY_WORDS = (0x0000, 0xffff, 0x00ff, 0xff00, 0x7f80, 0x8000)
 
 
 def mon_write(st, ctx, goodwe):
@@ -298,7 +306,7 @@ def mon_write(st, ctx, goodwe):
     inv, sim = make_dt(goodwe, DT_SERIALS['single-phase'], seed=ctx.rng.randrange(1 << 30)); run(inv.read_device_info()); fams.append(('DT-1ph', inv, sim))
     for fam, inv, sim in fams:
         for s in inv.settings():
-            vals = setting_values(s, ctx.rng, ctx.deep)
+            vals = setting_values(s, ctx.rng, ctx.deep, getattr(ctx, 'search', False))
             c = type(s).__name__
             if c == 'Timestamp': vals = [datetime.datetime(2024, 2, 29, 23, 59, 58), datetime.datetime(2000, 1, 1, 0, 0, 0), datetime.datetime(2099, 12, 31, 12, 0, 1)]
             if c in ('EcoModeV1',): vals = [bytes.fromhex('0000173b0014ff7f'), bytes.fromhex('0630171effe2ff55'), bytes.fromhex('3000300000640000')]
@@ -306,6 +314,12 @@ def mon_write(st, ctx, goodwe):
                 vals = [bytes.fromhex('0000173bff7fffec00500000'), bytes.fromhex('0630171e001500140064003f'), bytes.fromhex('0000173bfc7f00c8003c0000')]
             for v in vals:
                 _write_case(st, fam, inv, sim, s, v)
+            # one-byte settings are merged into the register they share: boundary contents of that register before the write
+            if c in ('ByteH', 'ByteL'):
+                for prior in BOUNDARY_WORDS:
+                    for v in (vals[:2] if not ctx.deep else vals[:6]):
+                        sim.set(s.offset, prior)
+                        _write_case(st, f'{fam} register {prior:#06x} before the write', inv, sim, s, v)
         _write_sequences(st, ctx, fam, inv, sim)
     # ES: register-addressed eco-mode groups and switches (AA55 for v1, Modbus for v2)
     for serial, firmware in (('95048ESU123W0001', '2314E'), ('95048ESU123W0001', '1005A')):
@@ -318,6 +332,11 @@ def mon_write(st, ctx, goodwe):
             else: continue
             for v in vals:
                 _write_case(st, f'ES fw {firmware}', inv, sim, s, v)
+            if c == 'ByteH':
+                for prior in BOUNDARY_WORDS:
+                    for v in vals[:2]:
+                        sim.set(s.offset, prior)
+                        _write_case(st, f'ES fw {firmware} register {prior:#06x} before the write', inv, sim, s, v)
         _write_sequences(st, ctx, f'ES fw {firmware}', inv, sim)
 
 
